@@ -295,7 +295,7 @@ pub fn run(args: &Args) -> i32 {
         let stats = stateexp::dfs(StateConfig { max_samples, max_flows: 1 }, &al, d, Some(first), &refstate::state_key, &mut |st, hist, idx| {
             evals += 1;
             for (k, detail) in oracle(st, hist, max_samples) {
-                let e = local.entry(k.clone()).or_insert(Finding { key: k, detail: format!("[first_ttl={first_ttl} max_samples={max_samples} history={idx:?}] {detail}"), replay: json!({"check":"C05","first_ttl":first_ttl,"max_samples":max_samples,"hops":h,"history":idx}), weight: (hist.len(), 0), count: 0 });
+                let e = local.entry(k.clone()).or_insert_with(|| Finding { key: k, detail: format!("[first_ttl={first_ttl} max_samples={max_samples} history={idx:?}] {detail}"), replay: json!({"check":"C05","first_ttl":first_ttl,"max_samples":max_samples,"hops":h,"history":idx}), weight: (hist.len(), 0), count: 0 });
                 e.count += 1;
             }
             if sample.is_none() && idx.len() == d && ti % 97 == 0 {
@@ -305,7 +305,7 @@ pub fn run(args: &Args) -> i32 {
         });
         for (what, pn, hidx) in &stats.panics {
             let key = format!("{}:{what}", pn.key());
-            local.entry(key.clone()).or_insert(Finding { key, detail: format!("[first_ttl={first_ttl} history={hidx:?}] {what} panicked: {} at {}:{}", pn.message, pn.file, pn.line), replay: json!({"check":"C05","first_ttl":first_ttl,"max_samples":max_samples,"hops":h,"history":hidx}), weight: (hidx.len(), 0), count: 1 });
+            local.entry(key.clone()).or_insert_with(|| Finding { key, detail: format!("[first_ttl={first_ttl} history={hidx:?}] {what} panicked: {} at {}:{}", pn.message, pn.file, pn.line), replay: json!({"check":"C05","first_ttl":first_ttl,"max_samples":max_samples,"hops":h,"history":hidx}), weight: (hidx.len(), 0), count: 1 });
         }
         let mut a = agg.lock().unwrap();
         a.0 += stats.states;
@@ -347,7 +347,7 @@ pub fn run(args: &Args) -> i32 {
             if (i + 1) % 50 == 0 || i + 1 == long_n {
                 evals += 1;
                 for (k, detail) in oracle(&st, &hist, max_samples) {
-                    let e = local.entry(format!("{k}:long-history")).or_insert(Finding { key: format!("{k}:long-history"), detail: format!("[first_ttl={first_ttl} max_samples={max_samples} after {} rounds] {detail}", i + 1), replay: json!({"check":"C05","long":true,"first_ttl":first_ttl,"max_samples":max_samples,"rounds":i+1}), weight: (i, 0), count: 0 });
+                    let e = local.entry(format!("{k}:long-history")).or_insert_with(|| Finding { key: format!("{k}:long-history"), detail: format!("[first_ttl={first_ttl} max_samples={max_samples} after {} rounds] {detail}", i + 1), replay: json!({"check":"C05","long":true,"first_ttl":first_ttl,"max_samples":max_samples,"rounds":i+1}), weight: (i, 0), count: 0 });
                     e.count += 1;
                 }
             }
@@ -368,7 +368,7 @@ pub fn run(args: &Args) -> i32 {
                 real_rounds += hist.len() as u64;
                 if let Some(st) = &o.snapshot {
                     for (k, detail) in oracle(st, &hist, p.max_samples) {
-                        let e = local.entry(format!("{k}:real-rounds")).or_insert(Finding { key: format!("{k}:real-rounds"), detail: format!("[{} {topo}] {detail}", cell.name()), replay: json!({"check":"C05","real":true,"cell":cell.name(),"topo":topo}), weight: (0, 0), count: 0 });
+                        let e = local.entry(format!("{k}:real-rounds")).or_insert_with(|| Finding { key: format!("{k}:real-rounds"), detail: format!("[{} {topo}] {detail}", cell.name()), replay: json!({"check":"C05","real":true,"cell":cell.name(),"topo":topo}), weight: (0, 0), count: 0 });
                         e.count += 1;
                     }
                 }
